@@ -173,7 +173,8 @@ def accepted_f(rel: bool, return_hat: bool) -> list[NC]:
         return [(one - I * K).inv() * P]
     sq = nc_func("sqrt", rho)
     k_hat = nc_func("conj", sq).inv() * K * sq.inv()
-    f_hat = [(one - I * k_hat * rho).inv() * P]
+    # rho = sqrt(rho)^2 is diagonal: K^ rho = conj(sq)^-1 K sq^-1 rho = conj(sq)^-1 K sq
+    f_hat = [(one - I * k_hat * rho).inv() * P, (one - I * nc_func("conj", sq).inv() * K * sq).inv() * P]
     if return_hat:
         return f_hat
     return [sq * f for f in f_hat]
@@ -283,14 +284,44 @@ def check_cached_matrices_not_mutated(ctx: Check, tree: Tree) -> None:
         ctx.ok("R-CACHE", MOD.replace(".", "/"), f"the {len(sources)} memoised matrix builders' results are only read / substituted (xreplace), never written")
 
 
+def check_no_rebuild(ctx: Check, tree: Tree) -> None:
+    """R-REBUILD: an expression that may contain EnergyDependentWidth (or any class that keeps a
+    phase-space factor / angular momentum / meson radius as a non-sympified argument) is never
+    handed to a SymPy operation that reconstructs nodes from ``.args`` (together, cancel, factor,
+    simplify, expand, cse, rewrite, ...): the reconstruction drops the argument and the class's
+    default phase-space factor re-appears inside the widths."""
+    from ..rules import carrier_classes, rebuild_sites
+
+    carriers = carrier_classes(tree, FORWARDED)
+    if not carriers:
+        raise AnalysisError("no expression class keeps phsp_factor/angular_momentum/meson_radius as a non-sympified argument (EnergyDependentWidth.phsp_factor confirmed)")
+    sites, stats = rebuild_sites(tree, ("ampform.",), carriers)
+    ctx.stats["rebuild"] = stats
+    bad = [s for s in sites if s["carrier_via"]]
+    for s in bad:
+        fn = s["fn"]
+        ctx.violation("R-REBUILD", f"{fn.qual}::{s['name']}", tree.loc(s["node"]),
+                      f"{fn.qual}: `{unparse(s['node'])[:60]}` reconstructs nodes from .args on an expression that may contain {sorted(c.split('::')[-1] for c in carriers)} (via {s['carrier_via']})",
+                      f"the non-sympified argument(s) {sorted({n for v in carriers.values() for n in v})} are not part of .args: the rebuilt node carries the default, not the caller's choice")
+    for s in sites:
+        if not s["carrier_via"]:
+            ctx.info("R-REBUILD", tree.loc(s["node"]), f"{s['fn'].qual}: `{unparse(s['node'])[:50]}` operates on an expression without such a class")
+    if not bad:
+        ctx.ok("R-REBUILD", "src/ampform/dynamics", f"none of the {len(sites)} SymPy node-reconstructing calls in the package receives an expression that may contain {sorted(c.split('::')[-1] for c in carriers)}")
+
+
 def run(ctx: Check, tree: Tree) -> None:
     ctx.decided += [
         "every (caller, callee, parameter) triple over {phsp_factor, angular_momentum, meson_radius} in ampform.dynamics forwards the caller's value (R-FORWARD)",
         "F = (1-iK)^-1 P; F^ = (1 - i K^ rho)^-1 P with K^ = conj(sqrt rho)^-1 K sqrt(rho)^-1, F = sqrt(rho) F^ (R-TERM-NC)",
         "K[i,j] and P[i] are substituted by the library's own parametrisations with matching indices and shared pole symbols (R-WIRING)",
+        "no expression that may contain a class with a non-sympified phsp_factor/angular_momentum/meson_radius is passed to a SymPy operation that rebuilds nodes from .args (R-REBUILD)",
     ]
     ctx.not_decided += ["numerical residual of (1-iK)F - P", "reduction to Breit-Wigner for one channel / one pole"]
-    ctx.assumptions += ["a callee parameter with a default silently takes that default when not passed (Python call semantics)"]
+    ctx.assumptions += [
+        "a callee parameter with a default silently takes that default when not passed (Python call semantics)",
+        "SymPy's together/cancel/factor/simplify/expand/cse/rewrite/... reconstruct visited nodes as node.func(*node.args) (table REBUILDERS in sa/rules.py)",
+    ]
     D.reset()
     ctx.section(check_forward, ctx, tree)
     ctx.section(check_f_vector, ctx, tree, "NonRelativisticPVector", rel=False)
@@ -298,3 +329,4 @@ def run(ctx: Check, tree: Tree) -> None:
     ctx.section(check_pvector_wiring, ctx, tree)
     ctx.section(check_memo_advisory, ctx, tree)
     ctx.section(check_cached_matrices_not_mutated, ctx, tree)
+    ctx.section(check_no_rebuild, ctx, tree)
